@@ -148,138 +148,246 @@ end Triple
 
 /-! ## the generic invariant -/
 
-/-- a host call never turns the layer root into a non-directory -/
-def KeepRoot (f : Layer → Except Nat Layer) : Prop :=
-  ∀ L L', f L = .ok L' → (L []).isDir = true → (L' []).isDir = true
+/-- a layer is a tree: whatever exists lies in a directory -/
+def TreeOK (L : Layer) : Prop := ∀ n p, (L (n :: p)).isAbsent = false → (L p).isDir = true
+
+/-- one successful host call: the layer root stays a directory and the layer stays a tree -/
+def HostStep (L L' : Layer) : Prop :=
+  ((L []).isDir = true → (L' []).isDir = true) ∧ (TreeOK L → TreeOK L')
+
+/-- a host call keeps the layer well-formed -/
+def KeepRoot (f : Layer → Except Nat Layer) : Prop := ∀ L L', f L = .ok L' → HostStep L L'
 
 theorem set_root {L : Layer} {n : Name} {p : Path} {nd : Node} : (L.set (n :: p) nd) [] = L [] := by
   simp [Layer.set]
 
-theorem updFile_isDir {L : Layer} {id : Nat} {g : Node → Node} {q : Path} (h : (L q).isDir = true) :
-    ((L.updFile id g) q).isDir = true := by
+theorem updFile_isDir (L : Layer) (id : Nat) (g : Node → Node) (hg : ∀ nd, (g nd).isDir = nd.isDir) (q : Path) :
+    ((L.updFile id g) q).isDir = (L q).isDir := by
   unfold Layer.updFile
-  cases hq : L q <;> simp_all [Node.isDir]
+  cases hq : L q with
+  | file i m c x =>
+    simp only []
+    split
+    · exact hg _
+    · rfl
+  | other i m =>
+    simp only []
+    split
+    · exact hg _
+    · rfl
+  | absent => rfl
+  | whiteout => rfl
+  | symlink t => rfl
+  | dir m o x => rfl
+
+theorem updFile_isAbsent (L : Layer) (id : Nat) (g : Node → Node) (hg : ∀ nd, (g nd).isAbsent = nd.isAbsent) (q : Path) :
+    ((L.updFile id g) q).isAbsent = (L q).isAbsent := by
+  unfold Layer.updFile
+  cases hq : L q with
+  | file i m c x =>
+    simp only []
+    split
+    · exact hg _
+    · rfl
+  | other i m =>
+    simp only []
+    split
+    · exact hg _
+    · rfl
+  | absent => rfl
+  | whiteout => rfl
+  | symlink t => rfl
+  | dir m o x => rfl
+
+/-- changing attributes of files keeps every node's kind -/
+theorem hostStep_updFile (L : Layer) (id : Nat) (g : Node → Node)
+    (hd : ∀ nd, (g nd).isDir = nd.isDir) (ha : ∀ nd, (g nd).isAbsent = nd.isAbsent) :
+    HostStep L (L.updFile id g) := by
+  refine ⟨fun h => by rw [updFile_isDir L id g hd]; exact h, fun ht n p hn => ?_⟩
+  rw [updFile_isAbsent L id g ha] at hn
+  rw [updFile_isDir L id g hd]
+  exact ht n p hn
+
+/-- replacing a directory by a directory keeps every node's kind -/
+theorem hostStep_setDir (L : Layer) (p : Path) (m o x m' o' x' : Nat) (h : L p = .dir m o x) :
+    HostStep L (L.set p (.dir m' o' x')) := by
+  have hk : ∀ q, ((L.set p (.dir m' o' x')) q).isDir = (L q).isDir ∧
+      ((L.set p (.dir m' o' x')) q).isAbsent = (L q).isAbsent := by
+    intro q
+    simp only [Layer.set]
+    split
+    · rename_i hq; subst hq; simp [h, Node.isDir, Node.isAbsent]
+    · exact ⟨rfl, rfl⟩
+  refine ⟨fun hd => by rw [(hk []).1]; exact hd, fun ht n q hn => ?_⟩
+  rw [(hk _).2] at hn
+  rw [(hk _).1]
+  exact ht n q hn
+
+theorem hostStep_refl (L : Layer) : HostStep L L := ⟨fun h => h, fun h => h⟩
+
+/-- creating an entry in an existing directory -/
+theorem hostStep_mk (L : Layer) (p : Path) (n : Name) (nd : Node) (hp : (L p).isDir = true)
+    (ha : (L (n :: p)).isAbsent = true) : HostStep L (L.set (n :: p) nd) := by
+  refine ⟨fun hd => by rw [set_root]; exact hd, fun ht m q hm => ?_⟩
+  simp only [Layer.set] at hm ⊢
+  by_cases h1 : m :: q = n :: p
+  · have hq : q = p := by injection h1
+    subst hq
+    rw [if_neg (ne_of_apply_ne List.length (by simp))]
+    exact hp
+  · rw [if_neg h1] at hm
+    by_cases h2 : q = n :: p
+    · subst h2
+      have := ht m (n :: p) hm
+      cases hx : L (n :: p) <;> simp_all [Node.isDir, Node.isAbsent]
+    · rw [if_neg h2]; exact ht m q hm
+
+/-- removing an entry that has nothing below it -/
+theorem hostStep_rm (L : Layer) (p : Path) (n : Name) (hleaf : ∀ m, (L (m :: n :: p)).isAbsent = true) :
+    HostStep L (L.set (n :: p) .absent) := by
+  refine ⟨fun hd => by rw [set_root]; exact hd, fun ht m q hm => ?_⟩
+  simp only [Layer.set] at hm ⊢
+  by_cases h1 : m :: q = n :: p
+  · rw [if_pos h1] at hm; simp [Node.isAbsent] at hm
+  · rw [if_neg h1] at hm
+    by_cases h2 : q = n :: p
+    · subst h2; rw [hleaf m] at hm; cases hm
+    · rw [if_neg h2]; exact ht m q hm
 
 theorem keepRoot_hMk (p : Path) (n : Name) (nd : Node) : KeepRoot (hMk · p n nd) := by
-  intro L L' h hd
-  simp only [hMk] at h
-  split at h
-  · cases h; rw [set_root]; exact hd
-  · cases h
+  intro L L' h
+  simp only [hMk, hParent] at h
+  cases hp : L p <;> simp [hp] at h
+  by_cases ha : (L (n :: p)).isAbsent = true
+  · simp [ha] at h
+    subst h
+    exact hostStep_mk L p n nd (by simp [hp, Node.isDir]) ha
+  · simp [ha] at h
 
 theorem keepRoot_hLink (src p : Path) (n : Name) : KeepRoot (hLink · src p n) := by
-  intro L L' h hd
+  intro L L' h
   simp only [hLink] at h
   split at h
   · cases h
   · cases h
-  · exact keepRoot_hMk p n _ L L' h hd
+  · exact keepRoot_hMk p n _ L L' h
+
+/-- below a non-directory of a tree there is nothing -/
+theorem leaf_of_nondir {L : Layer} (ht : TreeOK L) {q : Path} (hq : (L q).isDir = false) (m : Name) :
+    (L (m :: q)).isAbsent = true := by
+  cases ha : (L (m :: q)).isAbsent with
+  | true => rfl
+  | false => have := ht m q ha; rw [hq] at this; cases this
 
 theorem keepRoot_hUnlink (p : Path) (n : Name) : KeepRoot (hUnlink · p n) := by
-  intro L L' h hd
+  intro L L' h
   simp only [hUnlink] at h
-  split at h
-  · cases h
-  · cases h
-  · cases h; rw [set_root]; exact hd
+  cases hx : L (n :: p) <;> simp [hx] at h <;> subst h <;>
+    refine ⟨fun hd => by rw [set_root]; exact hd, fun ht => ?_⟩ <;>
+    exact (hostStep_rm L p n (fun m => leaf_of_nondir ht (by simp [hx, Node.isDir]) m)).2 ht
 
 theorem keepRoot_hRmdir (p : Path) (n : Name) : KeepRoot (hRmdir · p n) := by
-  intro L L' h hd
+  intro L L' h
   simp only [hRmdir] at h
-  split at h
-  · cases h
-  · split at h
-    · cases h
-    · cases h; rw [set_root]; exact hd
-  · cases h
+  cases hx : L (n :: p) <;> simp [hx] at h
+  by_cases hk : L.hasKids (n :: p) = true
+  · simp [hk] at h
+  · simp [hk] at h
+    subst h
+    refine hostStep_rm L p n (fun m => ?_)
+    simp only [Layer.hasKids, List.any_eq_true, not_exists, not_and, Bool.not_eq_true] at hk
+    have := hk m (mem_names m)
+    simpa using this
 
 theorem keepRoot_hCreateWhiteout (p : Path) (n : Name) : KeepRoot (hCreateWhiteout · p n) := by
-  intro L L' h hd
+  intro L L' h
   simp only [hCreateWhiteout] at h
   split at h
-  · cases h; exact hd
-  · exact keepRoot_hMk p n _ L L' h hd
+  · cases h; exact hostStep_refl L
+  · exact keepRoot_hMk p n _ L L' h
   · cases h
 
 theorem keepRoot_hDeleteWhiteout (p : Path) (n : Name) : KeepRoot (hDeleteWhiteout · p n) := by
-  intro L L' h hd
+  intro L L' h
   simp only [hDeleteWhiteout] at h
   split at h
-  · exact keepRoot_hUnlink p n L L' h hd
-  · cases h; exact hd
+  · exact keepRoot_hUnlink p n L L' h
+  · cases h; exact hostStep_refl L
   · cases h
 
-theorem set_isDir_root {L : Layer} {p : Path} {m o x : Nat} (hd : (L []).isDir = true) :
-    ((L.set p (.dir m o x)) []).isDir = true := by
-  simp only [Layer.set]
-  split
-  · rfl
-  · exact hd
-
 theorem keepRoot_hSetOpaque (p : Path) : KeepRoot (hSetOpaque · p) := by
-  intro L L' h hd
+  intro L L' h
   simp only [hSetOpaque] at h
   split at h
-  · cases h; exact set_isDir_root hd
+  · rename_i m o x hx
+    cases h; exact hostStep_setDir L p m o x m 1 x hx
   · cases h
   · cases h
 
 theorem keepRoot_hWrite (p : Path) (off : Nat) (data : List Nat) : KeepRoot (hWrite · p off data) := by
-  intro L L' h hd
+  intro L L' h
   simp only [hWrite] at h
   split at h
-  · cases h; exact updFile_isDir hd
+  · cases h
+    refine hostStep_updFile L _ _ (fun nd => ?_) (fun nd => ?_) <;> cases nd <;> rfl
   · cases h
 
 theorem keepRoot_hOpen (p : Path) (t : Bool) : KeepRoot (hOpen · p t) := by
-  intro L L' h hd
+  intro L L' h
   simp only [hOpen] at h
   split at h
   · cases h
   · split at h
-    · cases h; exact updFile_isDir hd
-    · cases h; exact hd
-  · cases h; exact hd
+    · cases h
+      refine hostStep_updFile L _ _ (fun nd => ?_) (fun nd => ?_) <;> cases nd <;> rfl
+    · cases h; exact hostStep_refl L
+  · cases h; exact hostStep_refl L
   · cases h
   · cases h
 
 theorem keepRoot_hChmod (p : Path) (mode : Nat) : KeepRoot (fun L => hChmod L p mode) := by
-  intro L L' h hd
+  intro L L' h
   simp only [hChmod] at h
   split at h
   · cases h
-  · cases h; exact updFile_isDir hd
-  · cases h; exact set_isDir_root hd
-  · cases h; exact updFile_isDir hd
   · cases h
-  · cases h; exact hd
+    refine hostStep_updFile L _ _ (fun nd => ?_) (fun nd => ?_) <;> cases nd <;> rfl
+  · rename_i m o x hx
+    cases h; exact hostStep_setDir L p m o x mode o x hx
+  · cases h
+    refine hostStep_updFile L _ _ (fun nd => ?_) (fun nd => ?_) <;> cases nd <;> rfl
+  · cases h
+  · cases h; exact hostStep_refl L
 
 theorem keepRoot_hTruncate (p : Path) (n : Nat) : KeepRoot (fun L => hTruncate L p n) := by
-  intro L L' h hd
+  intro L L' h
   simp only [hTruncate] at h
   split at h
   · cases h
-  · cases h; exact updFile_isDir hd
+  · cases h
+    refine hostStep_updFile L _ _ (fun nd => ?_) (fun nd => ?_) <;> cases nd <;> rfl
   · cases h
   · cases h
 
 theorem keepRoot_hSetX (p : Path) (v : Nat) : KeepRoot (fun L => hSetX L p v) := by
-  intro L L' h hd
+  intro L L' h
   simp only [hSetX] at h
   split at h
   · cases h
-  · cases h; exact updFile_isDir hd
-  · cases h; exact set_isDir_root hd
+  · cases h
+    refine hostStep_updFile L _ _ (fun nd => ?_) (fun nd => ?_) <;> cases nd <;> rfl
+  · rename_i m o x hx
+    cases h; exact hostStep_setDir L p m o x m o v hx
   · cases h
 
 theorem keepRoot_hRmX (p : Path) : KeepRoot (fun L => hRmX L p) := by
-  intro L L' h hd
+  intro L L' h
   simp only [hRmX] at h
   split at h
   · cases h
   · split at h
     · cases h
-    · exact keepRoot_hSetX p 0 L L' h hd
+    · exact keepRoot_hSetX p 0 L L' h
 
 /-- discharge a `KeepRoot` side condition -/
 macro "keeproot" : tactic =>
@@ -297,7 +405,7 @@ structure InvSpec where
   child : ∀ (r c : Real), φ r → c.layer = r.layer → c.inUpper = r.inUpper → φ c
   call : ∀ (r : Real) (m : Method), φ r → r.inUpper = true → ψ ⟨r.layer, m⟩
   disk : ∀ (r : Real) (L L' : Layer) (d : Disk), φ r → r.inUpper = true → D d →
-    d.layer r.layer = some L → ((L []).isDir = true → (L' []).isDir = true) → D (d.setLayer r.layer L')
+    d.layer r.layer = some L → HostStep L L' → D (d.setLayer r.layer L')
 
 variable (I : InvSpec)
 
